@@ -220,12 +220,13 @@ type evmSim struct {
 	bbhCalls      map[ethcommon.Hash]int
 	numStrs       map[string]int
 	notes         map[string]int
+	txNotes       map[string]int // watcher log lines that name a transaction, by tx hash (hex)
 	calls         int
 }
 
 func newEvmSim(head uint64) *evmSim {
 	return &evmSim{head: head, headHash: hID(kindHead, head), rcpts: map[int]*simRcpt{}, rcptErr: map[int]bool{}, bbhErr: map[int]bool{},
-		bumpOnRcpt: map[int]uint64{}, subReady: make(chan struct{}), bbhCalls: map[ethcommon.Hash]int{}, numStrs: map[string]int{}, notes: map[string]int{}}
+		bumpOnRcpt: map[int]uint64{}, subReady: make(chan struct{}), bbhCalls: map[ethcommon.Hash]int{}, numStrs: map[string]int{}, notes: map[string]int{}, txNotes: map[string]int{}}
 }
 
 var errInjected = errors.New("verif: injected RPC failure")
@@ -250,6 +251,21 @@ func (s *evmSim) GetBlockByNumber(ctx context.Context, num string, full bool) (m
 		return map[string]interface{}{"number": hexutil.EncodeUint64(tip), "hash": hID(kindHead, tip)}, nil
 	}
 	return map[string]interface{}{"number": hexutil.EncodeUint64(s.head), "hash": s.headHash}, nil
+}
+
+// BlockNumber (eth_blockNumber) is the height of the chain's tip: on a chain that is read at finalized height it is far ahead of
+// what is final.  The pinned watcher never asks for it; a watcher that does reads an unfinalized head.
+func (s *evmSim) BlockNumber(ctx context.Context) (hexutil.Uint64, error) {
+	s.mu.Lock()
+	defer s.mu.Unlock()
+	s.numStrs["eth_blockNumber"]++
+	if s.pollFailAll {
+		return 0, errInjected
+	}
+	if s.finalizedMode {
+		return hexutil.Uint64(s.head + 64), nil
+	}
+	return hexutil.Uint64(s.head), nil
 }
 
 func (s *evmSim) GetBlockByHash(ctx context.Context, h ethcommon.Hash, full bool) (*types.Header, error) {
